@@ -339,6 +339,14 @@ def run(ctx):
     for nm in ["test", "1.2.112.0.2.0.1176.2.3.3.1", "1.2.112.0.2.0.1176.2.3.6.1", "1.2.112.0.2.0.1176.2.3.10.1"]:
         cmds.append("paramsGen scheme=stb99 name=%s cls=from-standard-seed" % nm)
     cmds.append("paramsGen scheme=pfok name=test cls=from-standard-seed")
+    # bignParamsGen walked over its first seeds (carries of seed + 1 across one, two, ... octets; the standard's own seeds)
+    bg = [("1.2.112.0.2.0.34.101.45.3.1", "5E38010000000000", 2, "std"), ("1.2.112.0.2.0.34.101.45.3.1", "FF30010000000000", 3, "carry1"),
+          ("1.2.112.0.2.0.34.101.45.3.1", "FEFFFF0000000000", 4, "carry3"), ("1.2.112.0.2.0.34.101.45.3.1", "FDFFFFFFFFFFFFFF", 4, "wrap"),
+          ("1.2.112.0.2.0.34.101.45.3.2", "FFFF000000000000", 3, "carry2"), ("1.2.112.0.2.0.34.101.45.3.3", "00FFFFFFFF000000", 3, "inner")]
+    if tier != "quick":
+        bg += [("1.2.112.0.2.0.34.101.45.3.%d" % (1 + i % 3), "%02XFF%02X%02XFF000000" % (250 + i % 6, (i * 37) % 256, 255 if i % 2 else (i * 11) % 256), 4, "rand") for i in range(12)]
+    for nm, sd, mx, cls in bg:
+        cmds.append("bignGen name=%s seed=%s max=%d cls=gen-%s" % (nm, sd, mx, cls))
     cmds += G.seed_cmds(rng, tier)
     for s in seeds_std:
         L = lambda a: ",".join(str(x) for x in a)
